@@ -302,8 +302,11 @@ class TSink(DataSink[TData]):
 
     @classmethod
     def _send_data(cls, data: TData, path: str):
-        with open(path, "a") as fh:
-            fh.write(repr(data.data) + "\n")
+        # only absolute string paths are written: generated parameter values (ints, relative names) must never
+        # open a file descriptor or create files in the working directory
+        if isinstance(path, str) and path.startswith("/"):
+            with open(path, "a") as fh:
+                fh.write(repr(data.data) + "\n")
 
     @classmethod
     def input_data_type(cls):
@@ -315,8 +318,9 @@ class TPayloadSink(PayloadSink[TData]):
 
     @classmethod
     def _send_payload(cls, payload: Payload, path: str):
-        with open(path, "a") as fh:
-            fh.write(repr(payload.data.data) + "\n")
+        if isinstance(path, str) and path.startswith("/"):
+            with open(path, "a") as fh:
+                fh.write(repr(payload.data.data) + "\n")
 
     @classmethod
     def input_data_type(cls):
